@@ -65,6 +65,23 @@ func configs14(tier string) []xplore.Config {
 	return out
 }
 
+// configs03: the change feed under concurrent lifecycle calls on one target
+// (C03's statement quantifies over Reset and Remove calls; the collector issues
+// them from different goroutines - the target's manager goroutine resets, the
+// configuration handler removes). The feed, as an all-targets subscriber on
+// every path sees it, must replay to what the cache holds.
+func configs03(tier string) []xplore.Config {
+	var out []xplore.Config
+	bound := 2
+	if tier == "thorough" {
+		bound = 3
+	}
+	for _, w1b := range [][]wop{{{"remove", ""}}, {{"remove", ""}, {"add", ""}}} {
+		out = append(out, xplore.Config{Name: fmt.Sprintf("feed: W(t1)=reset || W'(t1)=%s W(t2)=upd a/b", scriptName(w1b)), Bound: bound - 1, Data: cfg14{w1: []wop{{"reset", ""}}, w2: []wop{{"upd", "a/b"}}, w1b: w1b}})
+	}
+	return out
+}
+
 func run14(cfg xplore.Config, ch vrt.Chooser, trace bool) (xplore.Outcome, *vrt.Result) {
 	if d, ok := cfg.Data.(cfg04); ok {
 		d.reverse = cfg.Reverse
